@@ -576,6 +576,48 @@ def builtin_connect_failure_case(ctx, workdir: str, name: str) -> None:
         ctx.violation("saver-leak-on-connect-failure", f"{name}: tasks left behind {result['leftovers']}", case)
 
 
+def many_sessions_case(ctx, workdir: str, sessions: int) -> None:
+    """The same Gateway object through many enter/leave cycles: every session saves on entry and on exit, leaves no task,
+    and the number of tasks / timers does not grow."""
+    from aiomysensors.gateway import Config, Gateway
+    from aiomysensors.model.node import Node
+
+    path = os.path.join(workdir, "many.json")
+    prepare_file(path, "missing")
+    case = {"engine": "vloop", "many_sessions": sessions}
+
+    async def scenario() -> dict:
+        problems = []
+        gateway = Gateway(ScriptedTransport(), Config(persistence_file=path))
+        before = set(asyncio.all_tasks())
+        for index in range(sessions):
+            gateway.nodes[index % 200] = Node(index % 200, 17, "2.0", heartbeat=index)
+            async with gateway:
+                await asyncio.sleep(index % 3)
+                status, disk = registry_on_disk(path)
+                if index % 3 and (status != "ok" or disk != typed(snap(gateway.nodes))) and not problems:
+                    problems.append(("no-save-after-entry", f"session #{index}: the registry is not on disk after entry"))
+                gateway.nodes[201] = Node(201, 17, "2.0", heartbeat=index)
+            status, disk = registry_on_disk(path)
+            if (status != "ok" or disk != typed(snap(gateway.nodes))) and len(problems) < 2:
+                problems.append(("no-final-save", f"session #{index}: file after exit is not the final registry ({status})"))
+            left = [t for t in asyncio.all_tasks() if t not in before and t is not asyncio.current_task() and not t.done()]
+            if left and len(problems) < 3:
+                problems.append(("task-left-after-exit", f"after session #{index}: {[repr(t)[:100] for t in left]}"))
+        return {"problems": problems}
+
+    result, _loop = run_virtual(scenario)
+    ctx.case(("many-sessions", sessions), sample=case)
+    ctx.clause("second-session", sessions)
+    if isinstance(result, LogicalDeadlock):
+        ctx.violation("context-deadlock", f"logical deadlock in {case}", case)
+    elif isinstance(result, BaseException):
+        ctx.violation("second-session-raised", f"{type(result).__name__}: {result!s:.80}", case)
+    else:
+        for key, what in result["problems"]:
+            ctx.violation(key, what, case)
+
+
 def second_session_case(ctx, workdir: str, transport_kind: str, k: int) -> None:
     """The same Gateway object is entered, left and entered again: the second session must save on entry, keep the
     15-minute cadence and save on exit exactly like the first."""
@@ -865,6 +907,8 @@ def run_case(ctx, case: dict) -> None:
     try:
         if "connect_error" in case:
             connect_failure_case(ctx, workdir, case["connect_error"], case["file"])
+        elif "many_sessions" in case:
+            many_sessions_case(ctx, workdir, case["many_sessions"])
         elif "late_exit_periods" in case:
             late_exit_case(ctx, workdir, case["late_exit_periods"], case["k"], case["mode"])
         elif "long_horizon_hours" in case:
@@ -918,6 +962,8 @@ def run(ctx) -> None:
                             late_exit_case(ctx, workdir, periods, k, mode)
             if ctx.shard_index == (1 % ctx.shard_count):
                 long_horizon_case(ctx, workdir, ctx.pick(320, 2000))
+            if ctx.shard_index == (2 % ctx.shard_count):
+                many_sessions_case(ctx, workdir, ctx.pick(40, 1500))
             for transport in ("scripted", "mqtt-fake"):
                 for how in ("cancel", "timeout"):
                     for k in (0, 1, 2, 3, 5, 8, 13, 30):
